@@ -100,9 +100,9 @@ func initReturning(runtime []byte) []byte {
 func relayCode(callop byte, terminal string) []byte {
 	a := &asm{}
 	a.op(opCALLDATASIZE).pushInt(0).pushInt(0).op(opCALLDATACOPY)
-	a.pushInt(0).pushInt(0)                              // retSize retOff
-	a.pushInt(32).op(opCALLDATASIZE).op(opSUB)           // inSize = size-32
-	a.pushInt(32)                                        // inOff
+	a.pushInt(0).pushInt(0)                    // retSize retOff
+	a.pushInt(32).op(opCALLDATASIZE).op(opSUB) // inSize = size-32
+	a.pushInt(32)                              // inOff
 	if callop == opCALL || callop == opCALLCODE {
 		a.op(opCALLVALUE)
 	}
